@@ -682,8 +682,10 @@ def run_case(case):
       # sensors are functions of efc_force: they are judged given equal inputs (solver/assembly agreement is C05/C06's subject)
       n = int(rs[0])
       fa, fb = np.sort(mw.npy(d.efc.force)[w][:n].astype(np.float64)), np.sort(np.array(mjd.efc_force[:n]))
-      if np.abs(fa - fb).max() > 1e-2 * max(1.0, float(np.abs(fb).max())):
+      if not np.all(np.isfinite(fa)) or np.abs(fa - fb).max() > 1e-2 * max(1.0, float(np.abs(fb).max())):
         gated, why = False, "efc_force differs between the engines"
+        if not np.all(np.isfinite(fa)):
+          rec.count("mjwarp_efc_force_not_finite")
     struct_ok = gated or why in ("iteration limit reached", "efc_force differs between the engines")
     rec.count("worlds")
     if constrained:
